@@ -36,7 +36,7 @@ def run_check(tier, seed):
     ev = Evidence(PROP, tier, seed)
     ev.cov['checker_cmd'] = 'make -C coq Props/C01.vo (coqc 8.16.1, full .vo) + Print Assumptions audit'
     ev.cov['trusted_base'] = TRUSTED_COMMON + S.SERVER_TRUSTED
-    ev.assumptions = ['memory safety of the unsafe blocks themselves is not modelled (canaries; ASan is a thorough-tier extra)',
+    ev.assumptions = ['memory safety of the unsafe blocks themselves is not modelled (canaries around every buffer in both tiers; the thorough tier replays all cases through an AddressSanitizer build)',
                       'C01_answer_required / C01_answer_exactly_one_message are proved for the FuseDev transport; for virtio the reply is the bytes placed in the writable descriptors (checked on the implementation and through the model correspondence)']
     broken = []; findings = []
     audit = std_audit(ev, PROP, broken)
@@ -44,7 +44,7 @@ def run_check(tier, seed):
     if not ok:
         broken.append({'kind': 'harness-build', 'log': out[-3000:]})
         return finish(ev, PROP, findings, broken)
-    n = 900 if tier == 'quick' else 12000
+    n = 1800 if tier == 'quick' else 12000
     rng = random.Random(seed)
     cases = S.gen_cases(rng, n, frac_malformed=0.45)
     # targeted cases: oversize FORGET/BATCH_FORGET, tiny capacities, exact-fit capacities
@@ -96,12 +96,28 @@ def run_check(tier, seed):
                 f0['shrunk_input'] = S.case_json(small, ob2.get(small['id']))
             except Exception as ex:
                 f0['shrink_error'] = str(ex)
+    # thorough tier: the same requests through an AddressSanitizer build of the harness + crate
+    if tier == 'thorough':
+        oka, outa, bina = cargo_build_asan(['codec'])
+        if not oka:
+            ev.cov['asan'] = 'not run: ASan build failed'
+        else:
+            inp = '\n'.join(S.case_line(c) for c in cases) + '\n'
+            rca, outa = run([os.path.join(bina, 'codec')], input=inp, timeout=3000, env={'ASAN_OPTIONS': 'detect_leaks=0:abort_on_error=0:halt_on_error=1'})
+            n_lines = sum(1 for l in outa.split('\n') if l.startswith('id='))
+            ev.cov['asan'] = {'cases': n_lines, 'exit': rca}
+            if 'AddressSanitizer' in outa or rca != 0 or n_lines != len(cases):
+                last = [l for l in outa.split('\n') if l.startswith('id=')][-1:] or ['']
+                idx = n_lines if n_lines < len(cases) else None
+                findings.append({'what': 'AddressSanitizer report / abnormal exit while serving a request (memory outside the supplied buffers touched)',
+                                 'sig': {'kind': 'asan'}, 'input': S.case_json(cases[idx]) if idx is not None else None,
+                                 'asan_output': outa[outa.find('AddressSanitizer') - 200:][:3000] if 'AddressSanitizer' in outa else outa[-1500:]})
     ev.cov['evaluations'] = len(obs)
     ev.cov['distinct_nontrivial'] = len(nontriv)
     ev.cov['model_vs_impl_cases'] = len(obs)
     ev.cov['model_vs_impl_disagreements'] = len(bad_idx)
     ev.cov['rule'] = ('seeded generator: ~55% well-formed requests of every opcode laid out from the kernel header tables (pairwise distinct field values, boundary values), '
-                      '~45% malformed (truncation at any offset, trailing bytes, length-field lies, opcode holes, count/size extremes, NULs removed, random bytes) x {fusedev, virtio with random '
+                      '~45% malformed (truncation at any offset, trailing bytes, length-field lies, opcode holes, count/size extremes, NULs removed, random bytes) x {fusedev, the real FuseChannel::get_request path with its shared read/write buffer, virtio with random '
                       'descriptor segmentations} x reply capacities {0,15,16,17,...,128KiB} x remap {ok, shifted, fail}; distinct_nontrivial counts distinct '
                       '(opcode, transport, result class, #packets, well-formed?) tuples observed')
     ev.cov['input_distribution'] = {' / '.join(k): v for k, v in sorted(hist.items(), key=lambda kv: -kv[1])[:40]}
